@@ -1,6 +1,7 @@
 """Regenerates MANIFEST.json from the table below; every property without a check is listed under not_applicable."""
 import json
 CLAIMS = {
+ 'C01': ('proof', 'the span glue under contract: query normalisation preserves the length (preprocess, lower_keep_length, to_lower_term_sensitive, apply_reverse); the matched[] sweep of the number extractor yields spans inside the query whose text is the stripped slice, for arbitrary regex matches; merge_all_tokens yields the slices of its tokens; modifier merging keeps spans inside the query; models report end = start + length - 1', 'regex matches are environment values (R1 geometry, R2 end anchor checked syntactically per culture); sweeps of the percentage / sequence / unit extractors, the sub-extractors token arithmetic and BaseMergedParser modifier handling are not under contract'),
  'C02': ('proof', 'frame obligations over every function of the seven packages (about 7000): no write to state that outlives a call outside construction (F1), parameter mutation only on call-local objects (F2), no ambient reads and the decimal context established at every number-parser entry (F3), no dynamic features (FX); plus the ModelFactory cache contracts (cached vs fresh model, C17). The step from frames to histories and schedules (no persistent writes => every result is a function of the arguments and of immutable models => order, cache warmth and thread are irrelevant and concurrent readers cannot race) is a pen-and-paper lemma', 'the frame analysis is syntactic with name-based call resolution; results of calls are treated as fresh; C-level state inside the regex module assumed transparent; no interleaving is executed'),
  'C06': ('proof', 'contracts on the glue from regex groups to TIMEX/value for absolute dates (match_to_date, generate_dates, safe_create_*, is_valid_date, format_date, luis_date): with an explicit 4-digit year the TIMEX and both values are that date and do not depend on the reference', 'which layouts the date regexes accept and which group receives which substring (regex layer) is assumed; culture tables month_of_year/day_of_month abstracted to their ranges'),
  'C07': ('proof', 'contracts on match_to_time (24h and 12h+am/pm incl. hour 0), to_pm (second reading twelve hours later), merge_date_and_time (date + time composition), time formatters', 'time regexes and am/pm descriptor regexes are environment values; prefix/suffix adjusters absent; sub-parsers in merge_date_and_time abstracted by their contracts'),
@@ -8,6 +9,7 @@ CLAIMS = {
  'C09': ('proof', 'generate_dates and match_to_date for year-less dates: future = earliest occurrence on or after the reference date, past = latest strictly before, incl. 29 February (years 1950..2090); known finding KF-C09-* for a non-midnight reference on the day itself', 'regex layer assumed; see known_findings.json'),
  'C10': ('proof', 'luis_time_span denotes exactly end - begin; period unit counts and (start,end,P<n>D) triples', 'float N as real; regexes assumed'),
  'C11': ('proof', 'the validity / formatting guard layer every value passes through: is_valid_date == calendar validity, safe_create_* yield a valid datetime or the min-value marker, formatters produce well-formed YYYY-MM-DD / HH:MM:SS, to_pm stays within 00..23', 'value construction sites in base_*period.py are not individually under contract'),
+ 'C12': ('proof', 'the two disjointness mechanisms the property names: the matched[] sweep of the number extractor (pairwise disjoint, sorted) incl. the sign-term widening, and merge_all_tokens (pairwise disjoint, sorted, for arbitrary token lists); the ambiguity filter never removes an untouched entity; ExtractResult.overlap is interval intersection', 'sign widening under R2 + H_sign (sign term does not overlap number matches); disjointness of date-time and unit models beyond merge_all_tokens rests on which candidates the regexes produce and on add_to/add_mod/_select_candidates, which are not under contract'),
  'C14': ('proof', 'per grammar alternative of the TIMEX datatype: the canonical string built from in-range fields parses (real TimexParsing/TimexRegex code, patterns matched by a structural regex model) to exactly those fields and formats back to the identical string; non-canonical accepted spellings re-parse to the same fields and formatting is idempotent; from_date / from_date_time / from_time give the canonical TIMEX', 're.match for the anchored TimexRegex patterns is modelled by pyvc/rxstruct.py over structured strings (validated against the real engine); str(Decimal) uninterpreted+injective and assumed amount-shaped; (start,end,duration) range strings not covered; known findings KF-C14-1/2'),
  'C15': ('proof', 'pre/postconditions on the real TimexResolver / TimexRangeResolver / TimexDateHelpers / TimexValue / TimexHelpers / TimexConstraintsHelper functions incl. loop invariant + termination for dates_matching_day and collapse for up to 3 ranges', 'Decimal as real; TIMEX string parsing (TimexRegex) outside these contracts; collapse/inner_collapse for list length <= 3 (the property quantifies over 1-3 constraints)'),
  'C17': ('proof', 'map_to_nearest_language proved over a case split of all culture strings (supported codes in every letter case: closed; each listed language with an arbitrary region; every proper prefix of a language; any other language word) and the ModelFactory cache contracts (a request never returns a model built for another key, cached entries are never re-bound, fallback only to en-us, ValueError exactly when nothing resolves)', 'str.lower/strip modelled as identity on lower-case ASCII words; culture strings of the form word or word-word; the cache modelled with two arbitrary pre-existing entries and two constructors; Recognizer.get_model composition (target culture default) by inspection; uniqueness of (type, culture) registrations across recognisers not checked here'),
